@@ -143,6 +143,9 @@ class CallMixin:
                 return VBool(z3.ForAll([j], z3.Implies(z3.And(0 <= j, j < v.n), z3.Select(st.heap[v.obj], idx)
                                                        == z3.Select(self.old.heap[v.obj], idx))))
             raise OutOfSubset("unchanged(array)")
+        if name == "is_real_array":
+            v = self.ev(node.args[0], st)
+            return VBool(st.hmeta[v.obj]["kind"] == "real")
         if name == "is_none":
             v = self.ev(node.args[0], st)
             return VBool(isinstance(v, VNone))
@@ -270,11 +273,12 @@ class CallMixin:
             return [(st, Outcome("value", v))]
         if name in ("range", "prange"):
             a = [self.to_int(x, line) for x in args]
+            par = name == "prange"
             if len(a) == 1:
-                return val(VRange(z3.IntVal(0), a[0], z3.IntVal(1)))
+                return val(VRange(z3.IntVal(0), a[0], z3.IntVal(1), par))
             if len(a) == 2:
-                return val(VRange(a[0], a[1], z3.IntVal(1)))
-            return val(VRange(a[0], a[1], a[2]))
+                return val(VRange(a[0], a[1], z3.IntVal(1), par))
+            return val(VRange(a[0], a[1], a[2], par))
         if name == "len":
             return val(self.len_of(args[0], line))
         if name in ("min", "max"):
